@@ -118,7 +118,15 @@ func (r *recPods) List() ([]*v1.Pod, error) {
 	pods, err := r.inner.List()
 	if gs != nil {
 		gs.PodsErr = err != nil
-		gs.Pods = pods
+		// the recorded view is what the watch delivered (pristine), not the shared objects the controller holds
+		gs.Pods = make([]*v1.Pod, 0, len(pods))
+		for _, p := range pods {
+			if pp := w.kube.pristinePod(p.Name); pp != nil {
+				gs.Pods = append(gs.Pods, pp)
+			} else {
+				gs.Pods = append(gs.Pods, p.DeepCopy())
+			}
+		}
 	}
 	w.logf("list g=%s pods n=%d err=%v", r.g, len(pods), err != nil)
 	return pods, err
@@ -130,7 +138,14 @@ func (r *recNodes) List() ([]*v1.Node, error) {
 	if w.gscan != nil && w.gscan.Group == r.g {
 		w.gscan.NodesErr = err != nil
 		w.gscan.NodesListed = true
-		w.gscan.Nodes = nodes
+		w.gscan.Nodes = make([]*v1.Node, 0, len(nodes))
+		for _, n := range nodes {
+			if pn := w.kube.pristineNode(n.Name); pn != nil {
+				w.gscan.Nodes = append(w.gscan.Nodes, pn)
+			} else {
+				w.gscan.Nodes = append(w.gscan.Nodes, n.DeepCopy())
+			}
+		}
 		w.gscan.TList = time.Now()
 	}
 	w.logf("list g=%s nodes n=%d err=%v", r.g, len(nodes), err != nil)
